@@ -95,7 +95,7 @@ TABLE_DEPENDS = {
 }
 
 
-STRICT_SECTIONS = ("alloc_sites", "const_prealloc")
+STRICT_SECTIONS = ()
 
 
 def prove(prop, tier, log):
